@@ -12,6 +12,7 @@ import shutil
 from . import expand
 from .common import REPRS, VERIF, rmin, rmax, wrap, run, Undecided, log
 from .corpus import rust_str
+from .layer_t import helper_norm
 
 EMIT_PROPS = {
     "__RANGES": ["C01", "C05", "C03", "C07"],
@@ -287,6 +288,14 @@ def run_instances(scratch, specs, seed=1, tier="quick", target=None, name="inst"
     missing = [s.mod for s in specs if s.mod not in mods]
     if missing:
         raise Undecided("modules missing from expansion: %s" % missing[:5])
+    import hashlib
+    res["unsafe_fns"] = {}
+    for s_ in specs:
+        lst = []
+        for f in mods[s_.mod]["fns"]:
+            if f["unsafe_blocks"] > 0:
+                lst.append([f["key"], hashlib.sha1(helper_norm(s_.repr + "|" + f["key"] + "|" + f["canon"]).encode()).hexdigest(), f["unsafe_blocks"]])
+        res["unsafe_fns"][s_.mod] = lst
     d = keep or os.path.join(scratch, name)
     live = list(specs)
     for attempt in range(4):
